@@ -1,5 +1,6 @@
 pub mod c09;
 pub mod c13;
+pub mod c16;
 pub mod conn;
 pub mod notif;
 
@@ -16,6 +17,7 @@ pub fn all() -> Vec<Arc<dyn Prop>> {
         Arc::new(notif::NotifProp { id: "C11" }),
         Arc::new(notif::NotifProp { id: "C12" }),
         Arc::new(c13::C13),
+        Arc::new(c16::C16),
     ]
 }
 
